@@ -178,6 +178,13 @@ func (p *poller) Poll(timeoutMs int) (n int, err error) {
 		event := &p.events[i]
 
 		events := PollerEvent(event.Mask)
+		if event.Mask&(syscall.EPOLLERR|syscall.EPOLLHUP) != 0 {
+			// Errors and hang-ups are reported whatever the interest mask is, possibly without EPOLLIN/EPOLLOUT
+			// (a pipe whose other end was closed). Run the registered handlers: the read or write they
+			// retry returns EOF or the error. Otherwise the operation never completes and epoll_wait
+			// keeps returning this event.
+			events |= PollerReadEvent | PollerWriteEvent
+		}
 		/* #nosec G103 -- the use of unsafe has been audited */
 		slot := *(**Slot)(unsafe.Pointer(&event.Data))
 
